@@ -270,6 +270,7 @@ enum ModelFault {
     MF_INIT_IS_BRANCHPOINT,
     MF_UNKNOWN_PROCESS,
     MF_EMPTY_TEMPLATE,   // a template without locations, init and edges (XTA: "process T() { }")
+    MF_BAD_DYNAMIC_DECL, // "dynamic DX(clock &r);": a dynamic template may not take references; the declaration is rejected
     MF_COUNT
 };
 const char* model_fault_name(int);
